@@ -216,6 +216,13 @@ def oracle(ctx: Ctx, sc: dict, tr: dict) -> dict:
 
     # quiescence: no write for Tq, and none in a further Tq
     last_write = max([r["wall"] for r in f.patches], default=0.0)
+    aborted = next((m for m in tr["marks"] if m["what"] == "aborted"), None)
+    if aborted is not None:
+        ctx.oracle_fail(f"the framework never settles: {aborted['tail_writes']} PATCHes of the object within {aborted['window']:.1f} virtual "
+                        f"seconds at t={aborted['t']:.1f} (simulation cut short)", {**rep, "last_writes": [[r["wall"], r.get("payload")] for r in f.patches[-4:]]},
+                        {"site": "application.apply", "shape": "framework keeps writing to the object after changes and failures stopped"})
+        out["class"] = "never-quiescent"
+        return out
     if last_write > f.end - 2 * f.tq:
         n_tail = len([r for r in f.patches if r["wall"] > f.t_sil])
         ctx.oracle_fail(f"the framework still writes to the object {f.end - last_write:.3f}s before the end of a silent tail of "
@@ -583,13 +590,13 @@ def _corpus() -> list[tuple[str, dict]]:
 
 
 def _evaluate(ctx: Ctx, scenarios: list[dict], tie: bool = True) -> None:
-    results = sim_c03.run_many(scenarios, wall=60.0)
+    results = sim_c03.run_many(scenarios, wall=40.0)
     cap = _keepalive_cap(ctx)
     reqs, impls, where = [], [], []
     for sc, res in zip(scenarios, results):
         if res.get("stall"):
-            ctx.oracle_fail("the operator spins without suspending (simulation stalled)", {"scenario": sc, "stderr": res.get("stderr", "")[-3000:]},
-                            {"site": "event loop", "shape": "operator task spins without suspending"})
+            ctx.oracle_fail("the simulated operator did not finish within the wall-clock limit (a task spinning without suspending, or never settling)", {"scenario": sc, "stderr": res.get("stderr", "")[-3000:]},
+                            {"site": "event loop", "shape": "simulation did not finish: operator task spinning or never settling"})
             continue
         if "trace" not in res:
             raise RuntimeError(f"simulation failed: {str(res)[:2000]}")
